@@ -550,6 +550,35 @@ impl<'borrow, B: Backend> HipByt<'borrow, B> {
     }
 }
 
+/// Verification hooks (`--cfg hipstr_verif`).
+#[cfg(hipstr_verif)]
+impl<B: Backend> HipByt<'_, B> {
+    /// For a heap-backed value, returns `(owner buffer address, owner vec
+    /// length, owner vec capacity, inner box address, share count)`.
+    #[must_use]
+    pub fn verif_owner_info(&self) -> Option<(usize, usize, usize, usize, usize)> {
+        match self.split() {
+            Split::Allocated(allocated) => Some(allocated.verif_owner_info()),
+            _ => None,
+        }
+    }
+
+    /// Forces the share count of a heap-backed value (leaks or worse if the
+    /// count does not match the number of live handles when they are dropped:
+    /// the caller must restore it).
+    ///
+    /// Returns `false` if the value is not heap-backed.
+    pub fn verif_force_share_count(&self, shares: usize) -> bool {
+        match self.split() {
+            Split::Allocated(allocated) => {
+                allocated.verif_force_share_count(shares);
+                true
+            }
+            _ => false,
+        }
+    }
+}
+
 impl<B: Backend> Drop for HipByt<'_, B> {
     #[inline]
     fn drop(&mut self) {
